@@ -909,6 +909,31 @@ class BasisManaged(Managed):
     def unprotect_basis(self):
         self.is_basis_protected = False
         
+    def _register_copy(self, new):
+        """A copy lives in the basis of its original: register it there
+        
+        Without registration a copy made inside a basis context keeps the
+        id of a basis which no longer exists when the context is left.
+        """
+        cb = new.get_current_basis()
+        manager = Manager()
+        if cb in manager.basis_registered:
+            manager.register_with_basis(cb, new)
+        return new
+        
+    def __copy__(self):
+        new = self.__class__.__new__(self.__class__)
+        new.__dict__.update(self.__dict__)
+        return self._register_copy(new)
+        
+    def __deepcopy__(self, memo):
+        import copy
+        new = self.__class__.__new__(self.__class__)
+        memo[id(self)] = new
+        for key, val in self.__dict__.items():
+            new.__dict__[key] = copy.deepcopy(val, memo)
+        return self._register_copy(new)
+        
         
 
 
